@@ -13,7 +13,7 @@ from metapype.model.node import Shift
 LEVEL = "model_checking"
 ASSUMPTIONS = [
     "histories respect the statement's precondition: a node is attached to at most one parent, no cycles",
-    "add_child indices are within [0, len]",
+    "in the BFS add_child indices are within [0, len]; scale_work inserts at every index from -len-4 to len+4 (list.insert semantics)",
     "BFS universes of 3-5 nodes over names a, b, ab; beyond them only the parametric families of scale_work (one wide parent x one shift, deep chains x queries)",
 ]
 
@@ -316,11 +316,17 @@ def run_queries(nodes, model, case, maxlen=3):
             nq += 2
             try:
                 exp = m_paths(model, n, path)
-                obs = L(nd.find_all_nodes_by_path(path))
+                given = None if path is None else list(path)
+                obs = L(nd.find_all_nodes_by_path(given))
                 if obs != exp:
                     bad("find_all_nodes_by_path", [n, path], exp, obs)
+                if given != path:
+                    bad("find_all_nodes_by_path", [n, path], "the caller's path list is left as it was", given)
                 ref = m_single(model, n, path)
-                obs1 = I(nd.find_single_node_by_path(path))
+                given = None if path is None else list(path)
+                obs1 = I(nd.find_single_node_by_path(given))
+                if given != path:
+                    bad("find_single_node_by_path", [n, path], "the caller's path list is left as it was", given)
                 if ref is not None:
                     if obs1 != ref:
                         bad("find_single_node_by_path", [n, path], ref, obs1)
@@ -456,6 +462,26 @@ def scale_work(item):
                         nodes, model = replay_history(names, history)
                         n_ops += 1
                         acc.add_problems(step(nodes, model, op, {"config": config, "history": history, "op": op}))
+    elif kind == "index-range":
+        # insert at every index from far below -len to far above len: the child list is what list.insert gives
+        n = payload
+        names = ["p"] + ["a"] * n + ["z"]
+        for idx in range(-n - 4, n + 5):
+            nodes = build(names)
+            for i in range(1, n + 1):
+                nodes[0].add_child(nodes[i])
+            ref = list(range(1, n + 1))
+            ref.insert(idx, n + 1)
+            case = {"config": {"names": names, "scale": "index-range"}, "history": [["add", 0, i, None] for i in range(1, n + 1)],
+                    "insert_index": idx}
+            n_ops += 1
+            try:
+                nodes[0].add_child(nodes[n + 1], idx)
+                got = impl_children(nodes)[0]
+                if got != ref or nodes[n + 1].parent is not nodes[0]:
+                    acc.add_problem(problem("children_mismatch", case, expected=ref, observed=got, op="add"))
+            except Exception as e:  # noqa
+                acc.add_problem(problem("edit_raised", case, expected="no exception", observed=repr(e), op="add", exc=type(e).__name__))
     else:
         depth = payload
         names = [("a" if i % 3 else "b") for i in range(depth)] + ["a", "b"]
@@ -484,10 +510,15 @@ def scale_items(tier):
         items.append(("wide-sparse", n))
     for depth in (13, 14, 30, 64):
         items.append(("deep", depth))
+    for n in (0, 1, 2, 3, 5):
+        items.append(("index-range", n))
     return items
 
 
 def replay(case):
+    if "insert_index" in case:
+        a = scale_work(("index-range", len(case["history"])))
+        return [p for ps in a.problems.values() for p in ps if p["case"].get("insert_index") == case["insert_index"]]
     names = case["config"]["names"]
     try:
         nodes, model = replay_history(names, case["history"])
